@@ -5,7 +5,7 @@
    evaluation on every run of harness/c09.py). *)
 From Coq Require Import ExtrOcamlBasic.
 From PD Require Import Base.Field Base.Matrix Base.Solve Model.Gauss Model.Prior Model.ExpGram
-  Generated.ExpGramConstants Run.GenRun Run.ExpGramRun.
+  Generated.ExpGramConstants Run.ExpGramRun.
 Extraction Language OCaml.
 Extraction "model_expgram.ml" g_expgram g_expgram_double g_expgram_variants g_kahan g_iwp_1d
   g_bottom_ou g_bottom_matern g_exp_transition.
